@@ -112,3 +112,14 @@ func H_int_pow() {
 }
 
 var _ data.Value
+
+// H_cmp_numeric_strings: pairs of strings that LOOK numeric. What order the language gives them is
+// outside the documented domain (no reference value is asserted), but the coherence laws hold for
+// them as for every pair: ==/!= and ===/!== are complements, == is symmetric, and <=> agrees with
+// < and > (one comparison rule, whichever operator is used).
+func H_cmp_numeric_strings() {
+	pool := []string{"10", "9", "-1", "-2", "1e3", "1000", "0", "00", "1.0", "1", " 1", "0x10", "abc", ""}
+	a, b := pool[symx.Choose("a", len(pool))], pool[symx.Choose("b", len(pool))]
+	cmpAll(sx.Str(a), sx.Str(b), false, a == b, false, false, "numeric-string-")
+	symx.Reach("end")
+}
